@@ -387,7 +387,23 @@ pub enum UciLine {
     Soup(Vec<u8>),
     /// a protocol command word followed by ITS OWN keywords and values, shuffled, doubled or missing
     CommandSoup(u8, Vec<u8>),
+    /// a well-formed FEN of a board no game can reach but with one king each and the side not to move
+    /// not in check (pawns on the first and last rank, nine queens, twelve knights ...), then a short search
+    OddBoard(u8),
 }
+
+const ODD_BOARDS: [&str; 10] = [
+    "P3k3/8/8/8/8/8/8/4K3 w - - 0 1",
+    "4k3/8/8/8/8/8/8/P3K3 w - - 0 1",
+    "4k2p/8/8/8/8/8/8/4K3 b - - 0 1",
+    "4k3/8/8/8/8/8/8/p3K2P b - - 0 1",
+    "pppp1k2/8/8/8/8/8/8/PPPP1K2 w - - 0 1",
+    "QQQQQ3/QQQQ4/8/8/8/8/6k1/K7 b - - 0 1",
+    "NNNNNN2/NNNNNN2/8/8/8/8/6k1/K7 w - - 0 1",
+    "4k3/pppppppp/pppppppp/8/8/PPPPPPPP/PPPPPPPP/4K3 w - - 0 1",
+    "bbbbk3/bbbb4/8/8/8/8/4BBBB/3KBBBB w - - 0 1",
+    "rrrrkrrr/8/8/8/8/8/8/RRRRKRRR w - - 0 1",
+];
 
 /// The protocol's vocabulary (UCI specification), also words this engine does not implement: a
 /// handler added later meets the same lines.
@@ -472,6 +488,9 @@ pub fn uci_text(l: &UciLine) -> Vec<String> {
             "position kiwipete",
         ][*k as usize % 7]
             .to_string()],
+        UciLine::OddBoard(k) => {
+            vec![format!("position fen {}", ODD_BOARDS[*k as usize % ODD_BOARDS.len()]), "go depth 2 movetime 4000".to_string(), "stop".to_string(), "position startpos".to_string()]
+        }
         UciLine::CommandSoup(c, words) => {
             // the commands with keyword/value pairs three and two times as often as the bare ones
             let pick = [0usize, 0, 0, 0, 1, 1, 2, 2, 3, 4, 5, 6, 7, 8, 9][*c as usize % 15];
@@ -519,6 +538,7 @@ impl Prop for UciLines {
             1 => (0u8..5, any::<u32>()).prop_map(|(a, b)| UciLine::Long(a, b)),
             2 => (0u8..7).prop_map(UciLine::PositionOdd),
             3 => prop::collection::vec(0u8..(VOCABULARY.len() as u8), 1..9).prop_map(UciLine::Soup),
+            2 => (0u8..(ODD_BOARDS.len() as u8)).prop_map(UciLine::OddBoard),
             8 => (0u8..15, prop::collection::vec(any::<u8>(), 0..7)).prop_map(|(c, w)| UciLine::CommandSoup(c, w)),
         ];
         prop::collection::vec(line, 1..8).prop_map(|lines| UciCase { lines }).boxed()
@@ -556,6 +576,7 @@ impl Prop for UciLines {
                 UciLine::Long(..) => "long_line",
                 UciLine::PositionOdd(_) => "position_odd_shape",
                 UciLine::Soup(_) => "protocol_word_soup",
+                UciLine::OddBoard(_) => "unreachable_board_searched",
                 UciLine::CommandSoup(..) => "command_with_shuffled_keywords",
             });
         }
